@@ -49,6 +49,7 @@ type Obl struct {
 	Full     string
 	Slowest  float64
 	Size     int
+	Skolems  []smt.SkInfo
 	Support  bool // belongs to a used module (supporting contract)
 	rep      *sym.FuncReport
 	worstQ   *smt.Query
@@ -474,6 +475,7 @@ func Run(opt Options, own, used []*Module, all []*Module) *RunResult {
 			o.Model = worst.res.Model
 			o.Raw = worst.res.Raw
 			o.worstQ = worst.q
+			o.Skolems = worst.res.GoalSkolems
 		}
 		if o.Kind == "canary" || o.Kind == "axioms" {
 			if status == "discharged" { // false was proved on every exit (or there is no exit)
